@@ -1,8 +1,89 @@
-(* C14/Run.v — input [ [ [name body opts] ... ] [schedule] ] with tok n = n; output [ [done key body opts]... ] *)
+(* C14/Run.v — evaluation of the models on harness cases.
+   [ [ [name body opts] ... ] [schedule] ]                    -> request interleaving model (tok n = n): [ [done key body opts]... ] log-length
+   [ 1 E [ [name pin]... ] [ [0 i ok] | [1 d] ... ] ]         -> timed cache: per thread [state ok key-name key-id fetched], cache [[name id exp]...], order of effect
+   [ 2 rate unit burst [ [t maxwait] ... ] ]                  -> limiter: admitted [[t act tokens]...]
+   [ 3 rate unit burst slack [acts] ]                         -> window_ok
+   [ 4 ntok n [ [0 i ok] [1] [2] [3] [4 d] [5 timer] ... ] ]  -> shutdown machine: pcs, file, clean, no-ping-after-close, returned, forced, tokens closed, lines
+   [ 5 n [ [i ok] ... ] ]                                     -> timestamper: per thread [state value], constructions *)
 From Relic Require Import Base.Prelude Base.Val Generated.C14_gen C14.Model.
-Definition run (v : val) : val :=
+From Relic Require C14.ModelCache C14.ModelRate C14.ModelShut C14.ModelInit.
+
+Definition run_iso (v : val) : val :=
   let rqs := map (fun r => mkRq (vz (vnth 0 r)) (vz (vnth 1 r)) (vz (vnth 2 r))) (vl (vnth 0 v)) in
   let sched := map (fun x => Z.to_nat (vz x)) (vl (vnth 1 v)) in
   let '(pcs, sh) := C14.Model.run (fun n => n) rqs sched in
   VL [VL (map (fun p => match response p with Some s => VL [VZ 1; VZ (s_key s); VZ (s_body s); VZ (s_opts s)] | None => VL [VZ 0] end) pcs);
       VZ (zlen (sh_log sh))].
+
+Section CacheRun.
+Import C14.ModelCache.
+(* the harness token: a key of the requested name; its id is the pinned id, or 100 + name when none is pinned *)
+Definition htok : tokenT := fun n p => Some (mkKey n (if p =? 0 then 100 + n else p)).
+Definition run_cache (v : val) : val :=
+  let E := vz (vnth 1 v) in
+  let rqs := map (fun r => mkCReq (vz (vnth 0 r)) (vz (vnth 1 r))) (vl (vnth 2 v)) in
+  let evs := map (fun e => if vz (vnth 0 e) =? 0 then CStep (Z.to_nat (vz (vnth 1 e))) (vbool (vnth 2 e)) else CTick (vz (vnth 1 e))) (vl (vnth 3 v)) in
+  let s := crun E htok rqs evs in
+  let thr := map (fun t => match t_pc t with
+                           | CDone (Some k) => VL [VZ 2; VZ 1; VZ (k_name k); VZ (k_id k); of_bool (t_fetched t)]
+                           | CDone None => VL [VZ 2; VZ 0; VZ 0; VZ 0; of_bool (t_fetched t)]
+                           | CNew => VL [VZ 0; VZ 0; VZ 0; VZ 0; VZ 0]
+                           | _ => VL [VZ 1; VZ 0; VZ 0; VZ 0; of_bool (t_fetched t)]
+                           end) (cs_thr s) in
+  VL [VL thr; VL (map (fun e => VL [VZ (e_name e); VZ (k_id (e_key e)); VZ (e_exp e)]) (cs_cache s));
+      VL (map (fun o => VZ (Z.of_nat (l_thread o))) (history s));
+      of_bool (list_eqb (fun a b => match a, b with (i, ra), (j, rb) => Nat.eqb i j &&
+                  match ra, rb with Some x, Some y => (k_name x =? k_name y) && (k_id x =? k_id y) | None, None => true | _, _ => false end end)
+                  (snd (seq_run E htok rqs (history s)))
+                  (map (fun o => (l_thread o, match nth_error (cs_thr s) (l_thread o) with
+                                              | Some t => match t_pc t with CDone r | CRet r => r | _ => None end | None => None end)) (history s)))].
+End CacheRun.
+
+Section RateRun.
+Import C14.ModelRate.
+Definition run_rate (v : val) : val :=
+  let L := relic_new_limiter (vz (vnth 1 v)) (vz (vnth 2 v)) (vz (vnth 3 v)) in
+  let calls := map (fun c => (vz (vnth 0 c), vz (vnth 1 c))) (vl (vnth 4 v)) in
+  VL (map (fun e => VL [VZ (ev_t e); VZ (ev_act e); VZ (ev_tok e)]) (C14.ModelRate.run L calls)).
+Definition run_window (v : val) : val :=
+  of_bool (window_ok (vz (vnth 1 v)) (vz (vnth 2 v)) (vz (vnth 3 v)) (vz (vnth 4 v)) (map vz (vl (vnth 5 v)))).
+End RateRun.
+
+Section ShutRun.
+Import C14.ModelShut.
+Definition pc_code (p : hpc) : Z :=
+  match p with HNew => 0 | HRefused => 1 | HRun k => 10 + Z.of_nat k | HHalf k => 30 + Z.of_nat k | HDone => 2 | HErr => 3 end.
+Definition run_shut (v : val) : val :=
+  let ntok := Z.to_nat (vz (vnth 1 v)) in
+  let n := Z.to_nat (vz (vnth 2 v)) in
+  let evs := map (fun e => let c := vz (vnth 0 e) in
+                           if c =? 0 then EReq (Z.to_nat (vz (vnth 1 e))) (vbool (vnth 2 e))
+                           else if c =? 1 then EShutdown else if c =? 2 then EGo else if c =? 3 then EWait
+                           else if c =? 4 then ETick (vz (vnth 1 e)) else EHealth (vbool (vnth 1 e))) (vl (vnth 3 v)) in
+  let line := fun i => [200 + Z.of_nat i] in
+  let s := srun line ntok n evs in
+  VL [VL (map (fun p => VZ (pc_code p)) (ss_req s)); VB (ss_file s); of_bool (clean (ss_trace s)); of_bool (no_ping_after_close (ss_trace s));
+      of_bool (ss_returned s); of_bool (ss_forced s); of_bool (ss_tok_closed s);
+      VL (map (fun l => VB l) (fst (read_lines (ss_file s)))); VB (snd (read_lines (ss_file s)))].
+End ShutRun.
+
+Section InitRun.
+Import C14.ModelInit.
+Definition run_ts (v : val) : val :=
+  let n := Z.to_nat (vz (vnth 1 v)) in
+  let evs := map (fun e => TStep (Z.to_nat (vz (vnth 0 e))) (vbool (vnth 1 e))) (vl (vnth 2 v)) in
+  let s := trun n evs in
+  VL [VL (map (fun p => match p with TDone (Some a) => VL [VZ 2; VZ a] | TDone None => VL [VZ 2; VZ 0] | TNew => VL [VZ 0; VZ 0] | _ => VL [VZ 1; VZ 0] end) (ts_thr s));
+      VZ (zlen (ts_made s))].
+End InitRun.
+
+Definition run (v : val) : val :=
+  match vnth 0 v with
+  | VL _ => run_iso v
+  | VZ 1 => run_cache v
+  | VZ 2 => run_rate v
+  | VZ 3 => run_window v
+  | VZ 4 => run_shut v
+  | VZ 5 => run_ts v
+  | _ => VL []
+  end.
